@@ -28,14 +28,14 @@ fn main() {
     if sub == "stress" || sub == "teardown" || sub == "spawnids" {
         tracing::subscriber::set_global_default(stress::StressCapture).expect("subscriber");
     } else {
-        let cap = log::Capture::new(vec![std::any::type_name::<scripted::Msg>(), std::any::type_name::<scripted::JMsg>()], false);
+        let cap = log::Capture::new(vec![std::any::type_name::<scripted::Msg>(), std::any::type_name::<scripted::JMsg>(), std::any::type_name::<scripted::SMsg>()], false);
         tracing::subscriber::set_global_default(cap).expect("subscriber");
     }
     match sub {
         "blockcases" => {
             let inp = arg(&args, "--in").expect("--in");
             let out = arg(&args, "--out").expect("--out");
-            let t: u64 = arg(&args, "--t").and_then(|s| s.parse().ok()).unwrap_or(100);
+            let t: u64 = arg(&args, "--t-us").and_then(|s| s.parse().ok()).unwrap_or(100_300);
             let par: usize = arg(&args, "--par").and_then(|s| s.parse().ok()).unwrap_or(12);
             let cases: Vec<Value> = serde_json::from_str(&std::fs::read_to_string(&inp).expect("read --in")).expect("json");
             let res = blockcases::run_blockcases(&cases, t, par);
